@@ -117,7 +117,7 @@ class FunctionLogger:
         wrong_format_target_function = False
         try:
             timer.start_timer("funtime")
-            fun_res = self.fun(x_orig)
+            fun_res = self.fun(x_orig.copy())
             timer.stop_timer("funtime")
             if self.he_noise_flag:
                 if (type(fun_res) is tuple) and len(fun_res) == 2:
